@@ -141,6 +141,8 @@ type grpSim struct {
 	coord    int             // listener (broker id - 1) that currently is the group's coordinator
 	hbOK     int             // heartbeats answered OK (the watchdog's clock)
 	failOff  map[string]int  // client -> partition whose ListOffsets requests fail (claim start fails)
+	failFetch   map[string]string // client -> how its OffsetFetch requests fail during the current Consume call
+	onFetchFail map[string]func() // one-shot hook at the first refused OffsetFetch (Close racing with the failing set-up)
 	connLn   map[net.Conn]int
 	down     map[int]bool // listeners taken down (unreachable coordinator)
 }
@@ -156,6 +158,8 @@ func newGrpSim(rec *vRec, sc *grpScenario) (*grpSim, error) {
 	}
 	s.expect = map[string]bool{}
 	s.failOff = map[string]int{}
+	s.failFetch = map[string]string{}
+	s.onFetchFail = map[string]func(){}
 	s.connLn = map[net.Conn]int{}
 	s.down = map[int]bool{}
 	for _, c := range sc.Clients {
@@ -436,6 +440,25 @@ func (s *grpSim) handle(req *request, li int) (encoderWithHeader, bool) {
 	case *OffsetFetchRequest:
 		res := &OffsetFetchResponse{Version: r.Version}
 		s.mu.Lock()
+		if kind := s.failFetch[cl]; kind != "" {
+			// session set-up fails: the initial OffsetFetch of the session's offset manager is refused for the whole call
+			s.rec.Ev("ofetch_fail", kv{"c": cl, "kind": kind})
+			hook := s.onFetchFail[cl]
+			delete(s.onFetchFail, cl)
+			s.mu.Unlock()
+			if hook != nil {
+				hook()
+			}
+			if kind == "conn" {
+				return nil, true
+			}
+			for topic, ps := range r.partitions {
+				for _, p := range ps {
+					res.AddBlock(topic, p, &OffsetFetchResponseBlock{Offset: -1, Err: grpKErr(kind)})
+				}
+			}
+			return res, false
+		}
 		for topic, ps := range r.partitions {
 			for _, p := range ps {
 				off, ok := s.store[p]
@@ -1101,6 +1124,24 @@ func (c *grpClient) fireL(at string, sess ConsumerGroupSession, simLocked bool) 
 		c.cancel()
 	case "close":
 		c.doClose()
+	case "ofetch_fail", "ofetch_fail_conn", "ofetch_fail_close":
+		// armed when the SyncGroup request arrives: the session's initial OffsetFetch fails for good
+		sim := c.run.sim
+		if !simLocked {
+			sim.mu.Lock()
+		}
+		sim.failFetch[c.name] = "notcoord"
+		if ss.Trig.Kind == "ofetch_fail_conn" {
+			sim.failFetch[c.name] = "conn"
+		}
+		if ss.Trig.Kind == "ofetch_fail_close" {
+			sim.onFetchFail[c.name] = c.doClose
+		}
+		if !simLocked {
+			sim.mu.Unlock()
+		}
+	case "setup_error", "setup_error_close":
+		// handled by Setup itself (it returns an error)
 	case "coord_move":
 		c.run.sim.moveCoord(simLocked)
 	case "coord_move_cancel":
@@ -1141,6 +1182,14 @@ func (h grpHandler) Setup(sess ConsumerGroupSession) error {
 	c.run.rec.Ev("setup", kv{"c": c.name, "mid": sess.MemberID(), "gen": int(sess.GenerationID()), "claims": claims})
 	c.run.setupOnce.Do(func() { close(c.run.firstSetup) })
 	c.fire("setup", sess)
+	if ss := c.sess(); ss.Trig.At == "setup" && (ss.Trig.Kind == "setup_error" || ss.Trig.Kind == "setup_error_close") {
+		// session set-up fails in the handler: the code releases the session (with Cleanup) and Consume returns the error
+		c.run.rec.Ev("setup_fail", kv{"c": c.name})
+		if ss.Trig.Kind == "setup_error_close" {
+			c.doClose()
+		}
+		return fmt.Errorf("verif: Setup refuses the session")
+	}
 	if len(claims) == 0 {
 		// no claim will reach the handler's point: the "claim" trigger fires shortly after Setup
 		go func() {
@@ -1329,6 +1378,8 @@ func (c *grpClient) drive() {
 		cs.cq = append([]string{}, ss.CF...)
 		cs.hbArmed = ""
 		delete(r.sim.failOff, c.name)
+		delete(r.sim.failFetch, c.name)
+		delete(r.sim.onFetchFail, c.name)
 		if ss.DF != nil && *ss.DF >= 0 {
 			r.sim.failOff[c.name] = *ss.DF
 		}
